@@ -544,3 +544,11 @@ PROPS['C05']['explanation'] = ('Verus proves, on the text of unregister / unregi
     '(any number of signals, actions, any ids): the published view is exactly the model\'s (only the addressed action removed, other signals untouched, slots never removed, fresh increasing ids), one publication iff the view changes; '
     'and, by induction over histories of any length, ids are never reused and stale ids stay dead. Kani proves Slot::new installs the dispatcher once with SA_RESTART|SA_SIGINFO for all c_int. '
     'The delivery side of the model (what runs) is C02 and is bounded in state shape.')
+
+# quick tier must stay well under 900 s per check (vp check): the slowest bounded cross-check harnesses run in the thorough
+# tier only for the properties whose unbounded Verus obligations supersede them
+PROPS['C05']['quick_drop'] = ['c04_op_register_vacant', 'c05_op_register_occupied_small', 'c02_hist_order', 'c05_hist_reregister']
+PROPS['C02']['quick_drop'] = ['c05_op_register_occupied_small', 'c05_op_unregister_signal_small', 'c02_hist_order', 'c05_hist_reregister']
+PROPS['C01']['quick_drop'] = ['c05_op_register_occupied_small', 'c05_op_unregister_signal_small']
+for _o in ('C05.REG-APPEND', 'C05.REG-OK', 'C02.ID-MONO', 'C02.HIST-ONLY-SIG'):
+    OBLIGATIONS[_o]['tier'] = 'thorough'
